@@ -83,6 +83,8 @@ type BaseNodeService struct {
 	// roundsMu serialises the read-modify-write sequences over the stored rounds: the poller
 	// handling a board message, and an API request that updates a round (finishing a re-initialisation)
 	roundsMu sync.Mutex
+	// tickMu is held by the poller for a whole tick and by SaveOffset
+	tickMu sync.Mutex
 }
 
 func NewNode(ctx context.Context, config *config.Config, sp *services.ServiceProvider) (NodeService, error) {
@@ -146,38 +148,52 @@ func (s *BaseNodeService) Poll() error {
 	for {
 		select {
 		case <-tk.C:
-			offset, err := s.getState().LoadOffset()
-			if err != nil {
-				return fmt.Errorf("failed to LoadOffset: %w", err)
-			}
-
-			messages, err := s.storage.GetMessages(offset)
-			if err != nil {
-				return fmt.Errorf("failed to GetMessages: %w", err)
-			}
-
-			for _, message := range messages {
-				s.Logger.Log("Handling message with offset %d, type %s", message.Offset, message.Event)
-				if message.RecipientAddr == "" || message.RecipientAddr == s.GetUsername() {
-					if err := s.ProcessMessage(message); err != nil {
-						s.Logger.Log("Failed to process message with offset %d: %v", message.Offset, err)
-					} else {
-						s.Logger.Log("Successfully processed message with offset %d, type %s",
-							message.Offset, message.Event)
-					}
-				} else {
-					s.Logger.Log("Message with offset %d, type %s is not intended for us, skip it",
-						message.Offset, message.Event)
-				}
-				if err := s.getState().SaveOffset(message.Offset + 1); err != nil {
-					s.Logger.Log("Failed to save offset:  %w", err)
-				}
+			if err := s.tick(); err != nil {
+				return err
 			}
 		case <-s.ctx.Done():
 			log.Println("Context closed, stop polling...")
 			return nil
 		}
 	}
+}
+
+// tick reads the messages that follow the saved offset and handles them one by one, saving the
+// offset after each. The offsets it saves derive from the one it read at its start, so it holds
+// tickMu throughout: an offset saved through the API waits for the tick to end instead of being
+// overwritten by it.
+func (s *BaseNodeService) tick() error {
+	s.tickMu.Lock()
+	defer s.tickMu.Unlock()
+
+	offset, err := s.getState().LoadOffset()
+	if err != nil {
+		return fmt.Errorf("failed to LoadOffset: %w", err)
+	}
+
+	messages, err := s.storage.GetMessages(offset)
+	if err != nil {
+		return fmt.Errorf("failed to GetMessages: %w", err)
+	}
+
+	for _, message := range messages {
+		s.Logger.Log("Handling message with offset %d, type %s", message.Offset, message.Event)
+		if message.RecipientAddr == "" || message.RecipientAddr == s.GetUsername() {
+			if err := s.ProcessMessage(message); err != nil {
+				s.Logger.Log("Failed to process message with offset %d: %v", message.Offset, err)
+			} else {
+				s.Logger.Log("Successfully processed message with offset %d, type %s",
+					message.Offset, message.Event)
+			}
+		} else {
+			s.Logger.Log("Message with offset %d, type %s is not intended for us, skip it",
+				message.Offset, message.Event)
+		}
+		if err := s.getState().SaveOffset(message.Offset + 1); err != nil {
+			s.Logger.Log("Failed to save offset:  %w", err)
+		}
+	}
+	return nil
 }
 
 func (s *BaseNodeService) getState() state.State {
@@ -528,6 +544,10 @@ func (s *BaseNodeService) ReInitDKG(dto *dto.ReInitDKGDTO) error {
 }
 
 func (s *BaseNodeService) SaveOffset(dto *dto.StateOffsetDTO) error {
+	// not in the middle of a poll tick, whose next message would overwrite the offset
+	s.tickMu.Lock()
+	defer s.tickMu.Unlock()
+
 	err := s.getState().SaveOffset(dto.Offset)
 
 	if err != nil {
